@@ -32,6 +32,7 @@ THEOREMS = [
     'Sbepp.Properties.C08.cycle_detection_complete',
     'Sbepp.Properties.C08.cyclic_schema_rejected',
     'Sbepp.Properties.C08.keyword_lists_agree',
+    'Sbepp.Properties.C08.symbolic_name_per_character',
 ]
 
 ANSI = re.compile(r'\x1b\[[0-9;]*m')
@@ -335,7 +336,7 @@ def gen_schema(seed, i):
 
 def job(args):
     """one worker: schemas `idxs` (with all mutants when `with_mut`), sbeppc + model + judgement"""
-    seed, idxs, with_mut, keep, exe, model, workdir, part, nparts = args
+    seed, idxs, with_mut, keep, exe, model, workdir, part, nparts, names_full, names_rotate = args
     stats = dict.fromkeys(STAT_KEYS, 0)
     feat, rules_hist, cls_hist, pos_hist = {}, {}, {}, {}
     reports, samples, nontrivial = [], [], 0
@@ -348,7 +349,7 @@ def job(args):
             cases.append(Case(len(cases), 'valid', sch, None, i))
         if with_mut:
             krng = random.Random(seed * 31 + i)
-            for k, m in enumerate(M.mutants(sch, random.Random(seed * 7919 + i))):
+            for k, m in enumerate(M.mutants(sch, random.Random(seed * 7919 + i), 0 if i < names_full else names_rotate)):
                 if m.rule == 'value' and krng.random() > keep:
                     continue
                 if k % nparts != part:
@@ -398,6 +399,8 @@ def run(chk):
     n_valid = 1500 if thorough else 150
     n_mut = 120 if thorough else 20
     keep = 0.35 if thorough else 0.25
+    # the naming probes: all of them at every position of the first `names_full` schemas, a rotating window elsewhere
+    names_full, names_rotate = (4, 3) if thorough else (1, 3)
     stats = dict.fromkeys(STAT_KEYS, 0)
     model = chk.model_exe()
     if model is None:
@@ -414,9 +417,10 @@ def run(chk):
     ncases = distinct = 0
     try:
         nparts = 4
-        jobs = [(chk.seed, [i], True, keep, exe, model, workdir, part, nparts) for i in range(n_mut) for part in range(nparts)]
+        jobs = [(chk.seed, [i], True, keep, exe, model, workdir, part, nparts, names_full, names_rotate)
+                for i in range(n_mut) for part in range(nparts)]
         rest = list(range(n_mut, n_valid))
-        jobs += [(chk.seed, rest[k:k + 10], False, keep, exe, model, workdir, 0, 1) for k in range(0, len(rest), 10)]
+        jobs += [(chk.seed, rest[k:k + 10], False, keep, exe, model, workdir, 0, 1, 0, 0) for k in range(0, len(rest), 10)]
         with cf.ProcessPoolExecutor(core.NPROC) as ex:
             for r in ex.map(job, jobs):
                 merge(stats, r['stats'])
